@@ -26,6 +26,9 @@ GOOD = [
     b'#!/usr/bin/env python\nvalue = "text" + "text" + "text" + "text"\nprint(value)\n',
     b'# -*- coding: latin-1 -*-\nname = "caf\xe9"\nprint(name)\n',
     b'a=1',
+    b'EPSILON=1e-5',
+    b'x=[]\ny=True if 0in x else False',
+    b'x="\t\t\t"',
     b'\xef\xbb\xbfdef f(a, b):\n    return a + b\n',
     b'def f():\r\n    return None\r\n',
 ]
@@ -190,6 +193,7 @@ def run_case(case):
         # sequential model over the visit listing
         state = {k: v for k, v in before.items()}
         expected_fail = None
+        fault_inert = False
         kw_cache = {}
         for i, v in enumerate(visited):
             key = realrel(v)
@@ -204,8 +208,12 @@ def run_case(case):
                 expected_fail = v
                 break
             if fault and os.path.normpath(fault_path) == v and fault['kind'] in ('read_fault', 'write_fault'):
-                expected_fail = v
-                break
+                if fault['kind'] == 'write_fault' and want == cur[1] and len(cli_model.expected_bytes(cur[1], flags, [], pm, force_best_effort=True)) > len(cur[1]):
+                    # the minified form is longer: the tool keeps the file as it is and never opens it for writing, the fault cannot strike
+                    fault_inert = True
+                else:
+                    expected_fail = v
+                    break
             state[key] = ('f', want)
         # 1. post-state equals the model
         for k in sorted(set(state) | set(after)):
@@ -232,7 +240,7 @@ def run_case(case):
                 viol('run continued after the failing file %s: visited %r' % (expected_fail, visited))
             if not set(visited) <= set(targets):
                 viol('visited files outside the documented selection: %r' % sorted(set(visited) - set(targets)))
-        if fault and expected_fail is None and fault['kind'] != 'none':
+        if fault and expected_fail is None and fault['kind'] != 'none' and not fault_inert:
             # the fault file was never reached?  (it must be, the listing had no failure)
             viol('fault plan %r on %s had no effect' % (fault, fault_path))
         n_changed = sum(1 for k in after if after.get(k) != before.get(k))
